@@ -42,7 +42,17 @@ def programs(check, n):
                 src = [s for s in steps if s.kind == "plugin"][0]
                 if tgt is not src:
                     tgt.fields["stop_if"] = Expr(Ref(src.name, "outputs", "error"))
-        out.append({"program": Program(steps, outs, gen.BASE_INPUT), "shape": shape})
+        isch = gen.BASE_INPUT
+        plugins = [s_ for s_ in steps if s_.kind == "plugin" and s_.schema == "work"]
+        if i % 5 == 2 and len(plugins) >= 2:
+            # the workflow input refers to an object in the namespace of one of several steps
+            from ..model import InputSchema
+            tgt = plugins[rng.randrange(len(plugins))]
+            props = dict(gen.BASE_INPUT.props)
+            props["w"] = {"type": ("ref", "WorkInput", "$.steps.%s.starting.inputs.input" % tgt.name), "required": False}
+            isch = InputSchema(props, root=gen.BASE_INPUT.root, objects=dict(gen.BASE_INPUT.objects))
+            shape += "+namespaced-input-ref"
+        out.append({"program": Program(steps, outs, isch), "shape": shape})
     return out
 
 
